@@ -62,9 +62,15 @@ def concrete_message_classes(p: Program) -> List[ClassInfo]:
 
 
 def concrete_part_classes(p: Program) -> List[ClassInfo]:
+    """The element classes the parser can hand out: every class of the part hierarchy whose tag is one of the
+    protocol's element tags (def<Kind> / one<Kind>) - whether or not something derives from it -, every leaf, and
+    every class that is instantiated or bound as a *_class attribute under indi/."""
+    from ..protocol_tables import KINDS
+    tags = {f"{pre}{k}" for pre in ("def", "one") for k in KINDS}
+    inst = instantiated_classes(p)
     out = []
     for c in part_base(p).all_subclasses():
-        if not c.subclasses:
+        if not c.subclasses or (c.name[:1].lower() + c.name[1:]) in tags or c.qualname in inst:
             out.append(c)
     return out
 
